@@ -53,8 +53,8 @@ def check(ctx):
     ctx.assumptions += [
         "real thread schedules are sampled, not enumerated; what is proved is that the ranking discipline excludes deadlock "
         "for any number of threads and programs, what is checked dynamically is that the code's lock nesting follows the ranking",
-        "blocked-on-l implies some other unfinished thread holds l (mutexes, reader/writer locks incl. writer preference); "
-        "fd-lock / OS file-lock behaviour is trusted",
+        "blocked-on-l implies some other unfinished thread holds l: proved for mutexes and for reader/writer locks incl. writer "
+        "preference (rw_blocked_erase); that std RwLock / fd-lock / OS file locks follow those blocking rules is trusted",
         "leaf locks (no site keeps the guard over later statements: aggregate cache, WAL cache, session cache, active signers) "
         "are not instrumented; which locks are leaf is recomputed from the source on every run (translator lock_sites), and "
         "every site of every other lock must carry a lockdep annotation; the memory back-end's own data mutexes and the HSM "
@@ -81,7 +81,8 @@ def replay(ctx, data):
 MANIFEST = {
     "text": "Lean 4 theorem ranked_no_deadlock: for any number of threads and any lock programs, if every thread requests only locks "
             "ranked above all it holds (and releases everything), no reachable state is a deadlock (plus preservation of the "
-            "discipline by every step and the inversion witness); krill's lock classes are ranked in the model (entity scope < "
+            "discipline by every step, the inversion witness, and rw_ranked_no_deadlock: the same for reader/writer locks with or without "
+            "writer preference – a thread blocked by the real rules is blocked in the mutex formulation); krill's lock classes are ranked in the model (entity scope < "
             "published-object store < task queue < signer stores; repository update lock < rsync lock). Tied to the code by a "
             "lockdep-style recorder hooked into every key-value scope lock (both back-ends), the repository update lock and the "
             "rsync lock: every (held, wanted) pair observed in concurrent runs with the real scheduler thread must respect the "
